@@ -8,4 +8,5 @@ RULE = ("seeded histories of 20-200 string/key-space commands over a 10-key pool
 
 
 def run(tier):
-    return modeldiff.run("C01", tier, "gen:gen_string_cmd", RULE)
+    from . import expiry_mini
+    return modeldiff.run("C01", tier, "gen:gen_string_cmd", RULE + "; plus the sweeper-window sync-point scenario of C02 with string / key-space commands as client actions", extra_fn=expiry_mini.strings_in_the_sweeper_window)
